@@ -1,0 +1,7 @@
+//go:build verif
+
+package safelog
+
+// Machine-checked contracts (read by /verif/engine; comment-only, compiled only with -tags verif).
+//
+// LogScrubber.buffer is serialised by the log.Logger that owns the writer, not by LogScrubber.lock: no declaration.
